@@ -361,7 +361,7 @@ class ProgStream(Stream):
     def compare_view(self, case, obs):
         an = obs["an"]
         return {"variables": an["variables"], "globals": an["globals"], "locals": an["locals"], "filters": an["filters"],
-                "tags": an["tags"], "unreached": [], "theorem_instance": True}
+                "tags": an["tags"], "unreached": [], "theorem_instance": True, "first_sentence_instance": True}
 
     def canon_model(self, case, mobs):
         if not isinstance(mobs, dict) or "error" in mobs:
@@ -374,6 +374,7 @@ class ProgStream(Stream):
             "tags": sorted(mobs["tags"]),
             "unreached": mobs["unreached"],
             "theorem_instance": (not mobs["hyp"]) or mobs["sound"],
+            "first_sentence_instance": mobs["first"],
         }
 
     def oracle(self, case, obs):
@@ -430,7 +431,7 @@ class GenStream(ProgStream):
     def cases(self, ctx):
         self.parallel = ctx.tier == "thorough"  # a few hundred cases run faster in-process than through a pool
         rng = ctx.rng_for("gen")
-        return [gen_case(rng) for _ in range(ctx.scale(500, 8000))]
+        return [gen_case(rng) for _ in range(ctx.scale(500, 5000))]
 
 
 class GenProgStream(ProgStream):
@@ -442,7 +443,7 @@ class GenProgStream(ProgStream):
         self.parallel = ctx.tier == "thorough"
         rng = ctx.rng_for("genprog")
         out = []
-        for _ in range(ctx.scale(150, 2500)):
+        for _ in range(ctx.scale(150, 1500)):
             p = gen_program(rng, extra=True, inherit=False)
             out.append({
                 "source": p["source"], "partials": p["partials"], "extra": True, "flags": p.get("flags") or {},
